@@ -142,6 +142,15 @@ def run(tape, ctx: Ctx, transport_choice=None) -> None:
     for k in range(n_jobs):
         p = tape.draw(n_programs, "program-of-job") if not pressure else k % n_programs
         jobs.append((f"{PROJECT}/programs/prog{p}", f"{PROJECT}/programs/prog{p}/jobs/job{k}"))
+    # ... and sometimes the first job of that program exists there as well (an earlier client process created
+    # program and job under these ids and went away): its submitter must get that job's result.  Drawn only
+    # in runs with a pre-existing program, so the other runs keep their tape.
+    preexisting_job = None
+    if preexisting and tape.chance(1, 2, "preexisting-job?"):
+        cand = [j for (pn, j) in jobs if pn == preexisting[0]]
+        if cand:
+            preexisting_job = cand[0]
+            ctx.fault_configured("preexisting-job")
     failing = set()
     if tape.chance(1, 4, "job-fails?"):
         failing.add(jobs[tape.draw(n_jobs, "failing-job")][1])
@@ -160,6 +169,8 @@ def run(tape, ctx: Ctx, transport_choice=None) -> None:
     with simloop.installed(sim) as loop:
         server = ModelQuantumEngine(sim, ctx, transport, fault_budget, kinds, failing, preexisting)
         server.connect_stalls = connect_stalls
+        if preexisting_job is not None:
+            server.jobs[preexisting_job] = server._new_job(preexisting_job)
         manager = sm.StreamManager(server.client)
 
         def is_subscribed(mid):
